@@ -1,21 +1,199 @@
-// Check C12 (sequential part): error aggregation is lossless and
-// errors.Is/As/Unwind-consistent. Exhaustive enumeration of error-expression
-// trees up to a depth bound with an independent bookkeeping oracle; see
-// seqpart for the bounds and the reading of the statement.
+// C12 (concurrent half): a Collector used from many goroutines holds exactly
+// the non-nil errors added, and Resolve is nil iff none were. Every schedule
+// (deviation bounded) of small programs of Add / Resolve / Len / Iterator
+// callers over the real erc.Collector, with the race oracle on.
 package main
 
 import (
-	"flag"
-	"os"
+	"context"
+	"errors"
+	"fmt"
+	"sort"
+	"time"
 
-	"verif/checks/c12/seqpart"
-	"verif/rep"
+	"github.com/tychoish/fun/erc"
+	"github.com/tychoish/fun/ers"
+	"verif/vs"
+	"verif/vs/runner"
 )
 
+var errs = []error{errors.New("e0"), errors.New("e1"), errors.New("e2"), errors.New("e3")}
+
+type snap struct {
+	at      int
+	kind    string
+	n       int
+	members []int
+	isNil   bool
+}
+
+func idx(err error) int {
+	for i, e := range errs {
+		if err == e {
+			return i
+		}
+	}
+	return -1
+}
+
+// adders: each adds its list (nil entries are ignored by the collector);
+// observers: Resolve / Len / Iterator at arbitrary times.
+func scenario(adds [][]int, observers []string) vs.Scenario {
+	return func() (func(), func(*vs.End) (string, string)) {
+		var snaps []snap
+		addDone := map[int]int{}  // error index -> time its Add returned
+		addStart := map[int]int{} // error index -> time its Add was invoked
+		var final []int
+		finalNil := false
+		finalLen := -1
+		body := func() {
+			ctx := context.Background()
+			ec := &erc.Collector{}
+			fin := make(chan struct{}, 8)
+			n := 0
+			for _, list := range adds {
+				list := list
+				n++
+				go func() {
+					for _, i := range list {
+						if i < 0 {
+							ec.Add(nil)
+							continue
+						}
+						addStart[i] = vs.Now()
+						ec.Add(errs[i])
+						addDone[i] = vs.Now()
+					}
+					fin <- struct{}{}
+				}()
+			}
+			for _, ob := range observers {
+				ob := ob
+				n++
+				go func() {
+					s := snap{kind: ob}
+					switch ob {
+					case "Resolve":
+						err := ec.Resolve()
+						s.at = vs.Now()
+						s.isNil = err == nil
+						for _, e := range ers.Unwind(err) {
+							s.members = append(s.members, idx(e))
+						}
+					case "Len":
+						s.n = ec.Len()
+						s.at = vs.Now()
+					case "Iterator":
+						it := ec.Iterator()
+						s.at = vs.Now()
+						for it.Next(ctx) {
+							s.members = append(s.members, idx(it.Value()))
+						}
+					}
+					snaps = append(snaps, s)
+					fin <- struct{}{}
+				}()
+			}
+			for i := 0; i < n; i++ {
+				<-fin
+			}
+			err := ec.Resolve()
+			finalNil = err == nil
+			finalLen = ec.Len()
+			for _, e := range ers.Unwind(err) {
+				final = append(final, idx(e))
+			}
+			for i, e := range errs {
+				if _, ok := addDone[i]; ok && !errors.Is(err, e) {
+					final = append(final, -100-i)
+				}
+			}
+		}
+		check := func(e *vs.End) (string, string) {
+			where := fmt.Sprintf("adds=%v observers=%v", adds, observers)
+			if len(e.Panics) > 0 {
+				return "panic/" + e.Panics[0].Site, e.Panics[0].Value
+			}
+			if e.Status != vs.Clean {
+				return "stuck/" + e.LibSites(), where
+			}
+			if len(e.Races) > 0 {
+				return "race/" + e.Races[0].Signature, where + ": " + e.Races[0].A + " <-> " + e.Races[0].B
+			}
+			var want []int
+			for _, l := range adds {
+				for _, i := range l {
+					if i >= 0 {
+						want = append(want, i)
+					}
+				}
+			}
+			got := append([]int(nil), final...)
+			sort.Ints(got)
+			sort.Ints(want)
+			if fmt.Sprint(got) != fmt.Sprint(want) {
+				return "final-contents-mismatch", where + fmt.Sprintf(": collector holds %v, added %v (negative = errors.Is false)", final, want)
+			}
+			if finalNil != (len(want) == 0) {
+				return "resolve-nil-iff", where
+			}
+			if finalLen != len(want) {
+				return "len-mismatch", where + fmt.Sprintf(": Len()=%d", finalLen)
+			}
+			// observers: every member seen was added (its Add had at least been invoked),
+			// every error whose Add returned before the observation started... (observation
+			// start is not recorded; only soundness of what was seen is asserted)
+			for _, s := range snaps {
+				seen := map[int]bool{}
+				for _, m := range s.members {
+					if m < 0 {
+						return "observer-saw-unknown-error/" + s.kind, where
+					}
+					if seen[m] {
+						return "observer-saw-duplicate/" + s.kind, where + fmt.Sprint(s.members)
+					}
+					seen[m] = true
+					if st, ok := addStart[m]; !ok || st > s.at {
+						return "observer-saw-error-before-it-was-added/" + s.kind, where
+					}
+				}
+				if s.kind == "Len" && (s.n < 0 || s.n > len(want)) {
+					return "observer-len-out-of-range", where
+				}
+			}
+			return "", ""
+		}
+		return body, check
+	}
+}
+
+func build(tier string) ([]runner.Instance, time.Duration) {
+	bound, budget := 2, 60*time.Second
+	if tier == "thorough" {
+		bound, budget = 3, 10*time.Minute
+	}
+	var out []runner.Instance
+	addSets := [][][]int{
+		{{0}, {1}},
+		{{0, 1}, {2}},
+		{{0, -1}, {-1, 1}},
+		{{-1}, {-1}},
+		{{0}, {1}, {2}},
+	}
+	obsSets := [][]string{{}, {"Resolve"}, {"Len"}, {"Iterator"}, {"Resolve", "Iterator"}}
+	for _, a := range addSets {
+		for _, o := range obsSets {
+			if len(a) == 3 && len(o) > 1 && tier != "thorough" {
+				continue
+			}
+			out = append(out, runner.Instance{Group: "collector", Name: fmt.Sprintf("collector/adds=%v,observers=%v", a, o), Bound: bound, Race: true, Scenario: scenario(a, o)})
+		}
+	}
+	return out, budget
+}
+
 func main() {
-	tier := flag.String("tier", "quick", "quick|thorough")
-	flag.Parse()
-	r := rep.New("C12", *tier, "model_checking")
-	seqpart.Run(r, *tier)
-	os.Exit(r.Finish())
+	runner.Main(runner.Options{Property: "C12", Level: "model_checking", Build: build,
+		Rule:   "concurrent half: every schedule (deviation bounded) of 2-3 adders (nil entries included) and 0-2 observers (Resolve/Len/Iterator) over the real erc.Collector with the happens-before race oracle on; evaluations = executions",
+		Assume: []string{"model of sync primitives in verif/vs (DESIGN §2.2)"}})
 }
